@@ -523,3 +523,169 @@ fn probe_forward() {
         check(&buf);
     }
 }
+
+/// C01 / C02 (writers): Message::as_bytes against an independent layout writer, and the round
+/// trip through dlt_message, for every combination of optional header fields x storage header x
+/// extended header x byte order x payload kind (incl. non-ASCII ids / names and a network trace)
+#[test]
+fn probe_writers() {
+    use crate::parse::{dlt_message, ParsedMessage};
+    fn id4(s: &str) -> Vec<u8> {
+        let mut v = s.as_bytes().to_vec();
+        while v.len() < 4 {
+            v.push(0);
+        }
+        v
+    }
+    fn w16(big: bool, n: u16) -> [u8; 2] { if big { n.to_be_bytes() } else { n.to_le_bytes() } }
+    fn w32(big: bool, n: u32) -> [u8; 4] { if big { n.to_be_bytes() } else { n.to_le_bytes() } }
+    let named = Argument {
+        type_info: TypeInfo { kind: TypeInfoKind::Unsigned(TypeLength::BitLength16), coding: StringCoding::UTF8, has_variable_info: true, has_trace_info: false },
+        name: Some("gr\u{f6}\u{df}e".to_string()),
+        unit: Some("\u{b0}C".to_string()),
+        fixed_point: None,
+        value: Value::U16(0x1234),
+    };
+    let text = Argument {
+        type_info: TypeInfo { kind: TypeInfoKind::StringType, coding: StringCoding::UTF8, has_variable_info: false, has_trace_info: false },
+        name: None,
+        unit: None,
+        fixed_point: None,
+        value: Value::StringVal("a\u{20ac}b".to_string()),
+    };
+    let payloads = vec![
+        PayloadContent::NonVerbose(0x01020304, vec![9, 8, 7]),
+        PayloadContent::ControlMsg(ControlType::Response, vec![0x11, 0, 1]),
+        PayloadContent::Verbose(vec![]),
+        PayloadContent::Verbose(vec![named.clone(), text.clone()]),
+        PayloadContent::NetworkTrace(vec![vec![1, 2, 3], vec![], vec![0xAA]]),
+    ];
+    for p in &payloads {
+        for flags in 0u8..32 {
+            let big = flags & 1 != 0;
+            let with_ecu = flags & 2 != 0;
+            let with_sid = flags & 4 != 0;
+            let with_tms = flags & 8 != 0;
+            let with_sto = flags & 16 != 0;
+            for with_ext in [false, true] {
+                let is_ctrl = matches!(p, PayloadContent::ControlMsg(..));
+                let is_verbose_kind = matches!(p, PayloadContent::Verbose(_) | PayloadContent::NetworkTrace(_));
+                if (is_ctrl || is_verbose_kind) && !with_ext {
+                    continue; // not well-formed: these kinds need the extended header to parse back
+                }
+                let mt = match p {
+                    PayloadContent::ControlMsg(..) => MessageType::Control(ControlType::Response),
+                    PayloadContent::NetworkTrace(_) => MessageType::NetworkTrace(NetworkTraceType::Can),
+                    _ => MessageType::Log(LogLevel::Warn),
+                };
+                let conf = MessageConfig {
+                    version: 1,
+                    counter: 0xC7,
+                    endianness: if big { Endianness::Big } else { Endianness::Little },
+                    ecu_id: if with_ecu { Some("\u{e9}C".to_string()) } else { None },
+                    session_id: if with_sid { Some(0xA1B2C3D4) } else { None },
+                    timestamp: if with_tms { Some(0x01020304) } else { None },
+                    payload: p.clone(),
+                    extended_header_info: if with_ext { Some(ExtendedHeaderConfig { message_type: mt.clone(), app_id: "AP".into(), context_id: "CTX4".into() }) } else { None },
+                };
+                let sto = if with_sto { Some(StorageHeader { timestamp: DltTimeStamp { seconds: 0x0A0B0C0D, microseconds: 999_999 }, ecu_id: "S1".into() }) } else { None };
+                let m = Message::new(conf, sto);
+                let inp = format!("payload={:?} big={} ecu={} sid={} tms={} storage={} ext={}", p, big, with_ecu, with_sid, with_tms, with_sto, with_ext);
+                let m2 = m.clone();
+                let bytes = match std::panic::catch_unwind(move || m2.as_bytes()) {
+                    Ok(b) => b,
+                    Err(_) => report("Message::as_bytes", inp, "panic".into()),
+                };
+                // independent layout
+                let mut want: Vec<u8> = Vec::new();
+                if with_sto {
+                    want.extend_from_slice(b"DLT\x01");
+                    want.extend_from_slice(&0x0A0B0C0Du32.to_le_bytes());
+                    want.extend_from_slice(&999_999u32.to_le_bytes());
+                    want.extend_from_slice(&id4("S1"));
+                }
+                let pay: Vec<u8> = match p {
+                    PayloadContent::NonVerbose(id, b) => { let mut v = w32(big, *id).to_vec(); v.extend_from_slice(b); v }
+                    PayloadContent::ControlMsg(_, b) => { let mut v = vec![2u8]; v.extend_from_slice(b); v }
+                    PayloadContent::NetworkTrace(sl) => {
+                        let mut v = Vec::new();
+                        for s in sl {
+                            v.extend_from_slice(&w32(big, 0x400));
+                            v.extend_from_slice(&w16(big, s.len() as u16));
+                            v.extend_from_slice(s);
+                        }
+                        v
+                    }
+                    PayloadContent::Verbose(args) => {
+                        let mut v = Vec::new();
+                        for a in args {
+                            if a.name.is_some() {
+                                // U16 with variable info, UTF-8: type info 0x42 | VARI(0x800) | SCOD utf8 (0x8000)
+                                v.extend_from_slice(&w32(big, 0x42 | 0x800 | 0x8000));
+                                let n = a.name.as_ref().unwrap().as_bytes();
+                                let u = a.unit.as_ref().unwrap().as_bytes();
+                                v.extend_from_slice(&w16(big, n.len() as u16 + 1));
+                                v.extend_from_slice(&w16(big, u.len() as u16 + 1));
+                                v.extend_from_slice(n);
+                                v.push(0);
+                                v.extend_from_slice(u);
+                                v.push(0);
+                                v.extend_from_slice(&w16(big, 0x1234));
+                            } else {
+                                v.extend_from_slice(&w32(big, 0x200 | 0x8000));
+                                let s = "a\u{20ac}b".as_bytes();
+                                v.extend_from_slice(&w16(big, s.len() as u16 + 1));
+                                v.extend_from_slice(s);
+                                v.push(0);
+                            }
+                        }
+                        v
+                    }
+                };
+                let hl = 4 + if with_ecu { 4 } else { 0 } + if with_sid { 4 } else { 0 } + if with_tms { 4 } else { 0 } + if with_ext { 10 } else { 0 };
+                let htyp = (with_ext as u8) | ((big as u8) << 1) | ((with_ecu as u8) << 2) | ((with_sid as u8) << 3) | ((with_tms as u8) << 4) | (1 << 5);
+                want.push(htyp);
+                want.push(0xC7);
+                want.extend_from_slice(&((hl + pay.len()) as u16).to_be_bytes());
+                if with_ecu {
+                    want.extend_from_slice(&id4("\u{e9}C"));
+                }
+                if with_sid {
+                    want.extend_from_slice(&0xA1B2C3D4u32.to_be_bytes());
+                }
+                if with_tms {
+                    want.extend_from_slice(&0x01020304u32.to_be_bytes());
+                }
+                if with_ext {
+                    let (mstp, mtin) = match mt { MessageType::Control(_) => (3u8, 2u8), MessageType::NetworkTrace(_) => (2, 2), _ => (0, 3) };
+                    want.push((is_verbose_kind as u8) | (mstp << 1) | (mtin << 4));
+                    want.push(match p { PayloadContent::Verbose(a) => a.len() as u8, PayloadContent::NetworkTrace(s) => s.len() as u8, _ => 0 });
+                    want.extend_from_slice(&id4("AP"));
+                    want.extend_from_slice(&id4("CTX4"));
+                }
+                want.extend_from_slice(&pay);
+                if bytes != want {
+                    report("Message::as_bytes", inp, format!("wrote {} but the layout is {}", hex(&bytes), hex(&want)));
+                }
+                // round trip with a tail
+                let mut buf = bytes.clone();
+                buf.extend_from_slice(&[0x5A, 0x5B]);
+                let b2 = buf.clone();
+                let r = std::panic::catch_unwind(move || match dlt_message(&b2, None, with_sto) {
+                    Ok((rest, ParsedMessage::Item(x))) => Some((rest.len(), x)),
+                    _ => None,
+                });
+                match r {
+                    Ok(Some((rl, x))) => {
+                        // a network-trace payload comes back as such; everything else field for field
+                        if rl != 2 || x != m {
+                            report("dlt_message", format!("{} bytes={}", inp, hex(&buf)), format!("parsed back {:?} with {} bytes left; the original is {:?}", x, rl, m));
+                        }
+                    }
+                    Ok(None) => report("dlt_message", format!("{} bytes={}", inp, hex(&buf)), "the serialised message does not parse back".into()),
+                    Err(_) => report("dlt_message", format!("{} bytes={}", inp, hex(&buf)), "panic".into()),
+                }
+            }
+        }
+    }
+}
